@@ -450,7 +450,7 @@ def run_case(spec):
     def ev(k, n=1):
         events[k] = events.get(k, 0) + n
 
-    forms_for_set = ("inferred", "bare")
+    forms_for_set = ("inferred", "bare", "anon")
     for tid, params, st, k in _collect_hosts(name, entry, spec):
         pj = json.dumps(params, sort_keys=True)
         forms = st.get("forms") or HH.FORMS
@@ -476,6 +476,11 @@ def run_case(spec):
                     discards.append(f"{st['sid']}/render: {note}")
                 continue
             for f in need:
+                if f == "anon":
+                    a = HH.anonymize(inf)
+                    if a is not None:
+                        rendered[f] = (a, host)
+                    continue
                 rendered[f] = (inf if f == "inferred" else bare, host)
         for f in forms:
             if f not in rendered:
